@@ -75,7 +75,24 @@ fn twoq_one(which: u8, size: usize, rr: f64, gr: f64) {
         1 => TwoQueueCache::<u8, u8>::with_recent_ratio(size, rr),
         2 => TwoQueueCache::<u8, u8>::with_ghost_ratio(size, gr),
         3 => TwoQueueCache::<u8, u8>::with_2q_parameters(size, rr, gr),
-        _ => TwoQueueCacheBuilder::new(size).set_recent_ratio(rr).set_ghost_ratio(gr).finalize::<u8, u8>(),
+        4 => TwoQueueCacheBuilder::new(size).set_recent_ratio(rr).set_ghost_ratio(gr).finalize::<u8, u8>(),
+        // every setter of the builder: the hasher setters rebuild the builder field by field and
+        // must carry size and both ratios over, whichever order the setters are called in
+        5 => TwoQueueCacheBuilder::new(size)
+            .set_recent_ratio(rr)
+            .set_ghost_ratio(gr)
+            .set_recent_hasher(H::default())
+            .set_frequent_hasher(H::default())
+            .set_ghost_hasher(H::default())
+            .finalize::<u8, u8>(),
+        _ => TwoQueueCacheBuilder::new(0)
+            .set_ghost_hasher(H::default())
+            .set_size(size)
+            .set_frequent_hasher(H::default())
+            .set_recent_ratio(rr)
+            .set_recent_hasher(H::default())
+            .set_ghost_ratio(gr)
+            .finalize::<u8, u8>(),
     };
     let xr = (size as f64) * erx;
     let xg = (size as f64) * egx;
@@ -161,6 +178,8 @@ twoq!(twoq_with_recent_ratio, twoq_with_recent_ratio_sym, 1);
 twoq!(twoq_with_ghost_ratio, twoq_with_ghost_ratio_sym, 2);
 twoq!(twoq_with_2q_parameters, twoq_with_2q_parameters_sym, 3);
 twoq!(twoq_builder, twoq_builder_sym, 4);
+twoq!(twoq_builder_hashers, twoq_builder_hashers_sym, 5);
+twoq!(twoq_builder_hashers_late, twoq_builder_hashers_late_sym, 6);
 
 /// TinyLFU::new: sizes symbolic, false-positive ratio an arbitrary f64
 fn tinylfu_ctor(valid_class: bool, grid: Option<f64>) {
